@@ -186,6 +186,13 @@ def r4_coercion(cx):
     cx.require(ok, bad_store if bad_store is not None else env, "environment: retries, cmd_timeout -> int, http_timeout -> float", construct="%s" % sorted((k, sorted(v)) for k, v in convs.items()))
     # environment booleans: 'true' -> True, 'false' -> False (the constant, not merely something falsy-then-replaced), anything else unchanged
     bf = [n for n in ast.walk(env) if isinstance(n, FUNC_TYPES) and n.name == "_boolify"]
+    if not bf:
+        # whatever function the environment values are passed through (nested or module level), found from its use
+        for n in ast.walk(env):
+            if isinstance(n, (ast.GeneratorExp, ast.ListComp)) and isinstance(n.elt, ast.Tuple) and len(n.elt.elts) == 2 and "os.environ" in U(n.generators[0].iter) \
+                    and isinstance(n.elt.elts[1], ast.Call) and isinstance(n.elt.elts[1].func, ast.Name) and len(n.elt.elts[1].args) == 1:
+                nm_ = n.elt.elts[1].func.id
+                bf = [x for x in ast.walk(env) if isinstance(x, FUNC_TYPES) and x.name == nm_] or ([m.get(nm_)] if m.has(nm_) and isinstance(m.get(nm_), FUNC_TYPES) else [])
     okb = False
     seen_ = []
     if bf:
